@@ -91,6 +91,7 @@ var props = map[string]propSpec{
 		{Pkg: "rotation", Fn: "VerifC09Base", Validate: 1, MustReach: []string{"end"}, CrossSolver: "z3"},
 		{Pkg: "rotation", Fn: "VerifC09Step", Validate: 4, MustReach: []string{"returned", "promoted", "unchanged"}, CrossSolver: "z3"},
 		{Pkg: "rotation", Fn: "VerifC09NodeLemma", Validate: 4, MustReach: []string{"end", "bound-is-tight-at-2R"}},
+		{Pkg: "rotation", Fn: "VerifC09NodeLemma4", Validate: 2, MustReach: []string{"end", "bound-is-tight-at-2R"}, ThoroughOnly: true, ShardBits: 2},
 	}, Assumptions: with("induction on the real step function: (1) empty storage establishes INV, (2) INV is preserved by one call made within the cadence bound and trust is never reset, (3) node lemma over up to three server calls from an arbitrary INV state", "INV (mine): current valid at the last call, next begins before current ends, both windows have length S-nb, next ends at least S after the last call", "clock: non-decreasing readings; everything that is not an explicit wait takes < 1 s; waits are symbolic (vf.Sleep) and witnesses that need hours of waiting are not replayed natively", "the strict bound t < te + R is asserted; equality is outside the claim"),
 		Explanation: "histories of any length via base + inductive step on the real RotateRootCertificates; node lemma with a real AuthorizeNode enrollment (actual certificate windows) and the tightness twin at 2R"},
 	"C10": {Harnesses: []harnessSpec{
